@@ -12,7 +12,7 @@ use wire::validate::*;
 use wire::*;
 use wtransport::endpoint::ConnectOptions;
 
-const RULE: &str = "scenario = session setup from the C02 generator (URL, 0..12 header fields, server decision) with the wtransport endpoint in either role against a recording raw peer, followed by 0..6 application streams (uni/bidi, generated payloads), 0..4 datagrams and a final Connection::close(code, reason); session ids 0 and 256 (64 burnt request streams). Everything the endpoint opened or sent is decoded with the reference codec: exactly one control stream whose first frame is a single SETTINGS (ENABLE_WEBTRANSPORT=1, H3_DATAGRAM=1, ENABLE_CONNECT_PROTOCOL=1, QPACK capacity/blocked absent or 0, no id twice, no reserved id, no second SETTINGS, nothing that is not a frame); request / response field sections with prefix (0,0), static or literal representations only, pseudo-fields first, the five request pseudo-fields resp. a 3-digit :status; every WT uni stream 0x54||session||bytes, every WT bidi stream 0x41||session||bytes, every datagram quarter-id||payload; the close code and reason the peer sees are the application's; ALPN is exactly h3. Non-trivial: the endpoint emitted >= 1 HEADERS and >= 1 WT stream or datagram; distinct = distinct scenario";
+const RULE: &str = "scenario = session setup from the C02 generator (URL, 0..12 header fields, server decision) with the wtransport endpoint in either role against a recording raw peer, followed by 0..6 application streams (uni/bidi, generated payloads), 0..4 datagrams and a final Connection::close(code, reason); session ids 0 and 256 (64 burnt request streams); the recording peer advertises the default or a small per-stream receive window (1..400 bytes), so that SETTINGS, HEADERS, stream headers and payloads are written across flow-control boundaries. Everything the endpoint opened or sent is decoded with the reference codec: exactly one control stream whose first frame is a single SETTINGS (ENABLE_WEBTRANSPORT=1, H3_DATAGRAM=1, ENABLE_CONNECT_PROTOCOL=1, QPACK capacity/blocked absent or 0, no id twice, no reserved id, no second SETTINGS, nothing that is not a frame); request / response field sections with prefix (0,0), static or literal representations only, pseudo-fields first, the five request pseudo-fields resp. a 3-digit :status; every WT uni stream 0x54||session||bytes, every WT bidi stream 0x41||session||bytes, every datagram quarter-id||payload; the close code and reason the peer sees are the application's; ALPN is exactly h3. Non-trivial: the endpoint emitted >= 1 HEADERS and >= 1 WT stream or datagram; distinct = distinct scenario";
 
 #[derive(Clone, Debug, Serialize, Deserialize)]
 pub struct Case {
@@ -23,6 +23,10 @@ pub struct Case {
     pub datagrams: Vec<(u16, u8)>,
     pub close_code: u64,
     pub close_reason: Vec<u8>,
+    /// per-stream receive window the recording peer advertises (0 = transport default): small
+    /// values make every frame and stream header the endpoint writes cross flow-control boundaries
+    #[serde(default)]
+    pub peer_window: u16,
 }
 
 pub fn case_strategy() -> impl Strategy<Value = Case> {
@@ -34,8 +38,9 @@ pub fn case_strategy() -> impl Strategy<Value = Case> {
         proptest::collection::vec((0u16..1000, any::<u8>()), 0..4),
         prop_oneof![Just(0u64), Just(0x100), any::<u32>().prop_map(|v| v as u64), 0u64..(1 << 62)],
         proptest::collection::vec(any::<u8>(), 0..30),
+        prop_oneof![3 => Just(0u16), 1 => Just(1u16), 1 => Just(4), 1 => Just(11), 1 => Just(24), 1 => 2u16..400],
     )
-        .prop_map(|(setup, wt_is_client, high_session, streams, datagrams, close_code, close_reason)| Case { setup, wt_is_client, high_session, streams, datagrams, close_code, close_reason })
+        .prop_map(|(setup, wt_is_client, high_session, streams, datagrams, close_code, close_reason, peer_window)| Case { setup, wt_is_client, high_session, streams, datagrams, close_code, close_reason, peer_window })
 }
 
 fn fail(what: &str, e: String) -> CaseResult {
@@ -52,9 +57,10 @@ async fn exec_async(case: Arc<Case>) -> CaseResult {
     let session: u64;
     let recorder: Recorder;
     let mut _keep: Vec<Box<dyn std::any::Any + Send>> = Vec::new();
+    let raw_tuning = Tuning { stream_receive_window: if case.peer_window > 0 { Some(case.peer_window as u32) } else { None }, ..Default::default() };
     if case.wt_is_client {
         // wtransport client against a raw server that records everything, including the request stream
-        let (raw_ep, addr) = match raw_server(&Tuning::default()) {
+        let (raw_ep, addr) = match raw_server(&raw_tuning) {
             Ok(x) => x,
             Err(e) => return CaseResult::Skip(e),
         };
@@ -159,7 +165,7 @@ async fn exec_async(case: Arc<Case>) -> CaseResult {
         let high = case.high_session;
         let headers = setup.headers.clone();
         let client = async {
-            let (ep, rc) = raw_connect(addr, &Tuning::default()).await?;
+            let (ep, rc) = raw_connect(addr, &raw_tuning).await?;
             let rec = Recorder::start(&rc);
             let control = open_control(&rc, &default_settings()).await?;
             if high {
@@ -366,6 +372,9 @@ async fn exec_async(case: Arc<Case>) -> CaseResult {
     if !accepting {
         labels.push("rejected-session");
     }
+    if case.peer_window > 0 && case.peer_window <= 24 {
+        labels.push("peer-window<=24");
+    }
     CaseResult::Pass { nontrivial: emitted_headers && emitted_wt, labels }
 }
 
@@ -387,7 +396,7 @@ pub fn run(run: &Run) {
         |c| judge(|| exec(c), false, "C16:hang"),
         |c| serde_json::to_value(c).unwrap(),
     );
-    for l in ["role:client", "role:server", "session>=256", "datagram-seen", "wt-uni-seen", "wt-bidi-seen", "rejected-session"] {
+    for l in ["role:client", "role:server", "session>=256", "datagram-seen", "wt-uni-seen", "wt-bidi-seen", "rejected-session", "peer-window<=24"] {
         run.essential(l);
     }
 }
